@@ -39,7 +39,7 @@ def check(ctx):
             "Sequence": "Ok(F[Vec<{%s}>])" % (R % "A.type_param.id"),
             "Array": "Ok(F[[{%s}; {A.len}]])" % (R % "A.type_param.id"),
             "Tuple": "description::tuple_type_description(A,P1)",
-            "Primitive": "Ok(Into::into(description::primitive_type_description(A)))",
+            "Primitive": "Ok(description::primitive_type_description(A))",
             "Compact": "Ok(F[Compact<{%s}>])" % (R % "A.type_param.id"),
             "BitSequence": "Ok(F[BitSequence({%s}, {%s})])" % (R % "A.bit_order_type.id", R % "A.bit_store_type.id"),
         }
